@@ -174,9 +174,91 @@ def emit_loop_control(tree):
   ])
 
 
+# ---- determinism recogniser (wave 5, item 4): nothing in this code may depend on the process (hash seed, object
+# identity, clock, environment, pid, unseeded random numbers); fail-closed
+
+def _forbid_process_dependence(tree, time_ok_in=()):
+  """Raises Unsupported on hash(), id(), uuid, random, np.random, os.environ, os.getpid anywhere, and on any use of
+  `time` outside the functions listed in time_ok_in."""
+  def scan(node, fn):
+    for ch in ast.iter_child_nodes(node):
+      f = ch.name if isinstance(ch, ast.FunctionDef) else fn
+      if isinstance(ch, ast.Call) and isinstance(ch.func, ast.Name) and ch.func.id in ('hash', 'id'):
+        raise Unsupported(f'{ch.func.id}() in {fn or "module"}: depends on the process')
+      if isinstance(ch, ast.Attribute):
+        try:
+          d = dotted(ch)
+        except Unsupported:
+          d = ''
+        if d.startswith(('uuid.', 'random.', 'np.random.', 'numpy.random.', 'os.environ', 'os.getpid', 'secrets.')):
+          raise Unsupported(f'{d} in {fn or "module"}: depends on the process')
+        if d.startswith('time.') and fn not in time_ok_in:
+          raise Unsupported(f'{d} in {fn or "module"}')
+      scan(ch, f)
+  scan(tree, None)
+
+
+def emit_deterministic(tree):
+  """run_federated_experiment reads the clock, but only into variables that are logged: every name that (transitively)
+  holds a clock value may be used only in further such assignments and in arguments of logger.log / logging.info."""
+  _forbid_process_dependence(tree, time_ok_in=('run_federated_experiment',))
+  fd = find_def(tree, 'run_federated_experiment')
+
+  def uses_clock(e, tainted):
+    for n in ast.walk(e):
+      if isinstance(n, ast.Attribute):
+        try:
+          if dotted(n).startswith('time.'):
+            return True
+        except Unsupported:
+          pass
+      if isinstance(n, ast.Name) and isinstance(n.ctx, ast.Load) and n.id in tainted:
+        return True
+    return False
+  tainted = set()
+  changed = True
+  while changed:
+    changed = False
+    for n in ast.walk(fd):
+      if isinstance(n, ast.Assign) and len(n.targets) == 1 and isinstance(n.targets[0], ast.Name) and \
+          uses_clock(n.value, tainted) and n.targets[0].id not in tainted:
+        tainted.add(n.targets[0].id)
+        changed = True
+  allowed_sinks = ('logger.log', 'logging.info')
+
+  def check(node, in_sink):
+    for ch in ast.iter_child_nodes(node):
+      sink = in_sink
+      if isinstance(ch, ast.Call):
+        try:
+          sink = sink or dotted(ch.func) in allowed_sinks
+        except Unsupported:
+          pass
+      if isinstance(ch, ast.Assign) and len(ch.targets) == 1 and isinstance(ch.targets[0], ast.Name) and \
+          ch.targets[0].id in tainted:
+        continue                      # clock value flowing into another clock variable
+      if not sink:
+        if isinstance(ch, ast.Name) and isinstance(ch.ctx, ast.Load) and ch.id in tainted:
+          raise Unsupported(f'clock-dependent value {ch.id} is used outside logging')
+        if isinstance(ch, ast.Attribute):
+          try:
+            if dotted(ch).startswith('time.'):
+              raise Unsupported('time.* used outside a duration assignment / logging')
+          except Unsupported as ex:
+            if 'time.*' in str(ex):
+              raise
+      check(ch, sink)
+  check(fd, False)
+  for bad in ('state', 'round_num', 'start_round_num', 'clients', 'metrics', 'should_save_checkpoint', 'should_run_eval'):
+    if bad in tainted:
+      raise Unsupported(f'{bad} depends on the clock')
+  return 'Definition experiment_loop_is_process_independent : bool := true.'
+
+
+
 MODULES = {
     'Gen_federated_experiment': {
         'src': SRC,
-        'items': [emit_loop_control],
+        'items': [emit_loop_control, emit_deterministic],
     },
 }
